@@ -401,6 +401,78 @@ enum Iter {
     W(MetaIterMut<'static, dyn Obj>),
 }
 
+/// What the harness does with an item an iterator (or an adapter over it) handed out.
+trait Item: Sized {
+    /// (tag, address, value) as reported through the trait object; iter_mut items are bumped
+    fn observe(&mut self, genuine: &dyn Fn(u32, usize) -> bool) -> (u32, usize, u32);
+    fn into_guard(self) -> Guard;
+}
+impl Item for AtomicRef<'static, dyn Obj> {
+    fn observe(&mut self, genuine: &dyn Fn(u32, usize) -> bool) -> (u32, usize, u32) {
+        let v = if genuine(self.tag(), self.addr()) { self.val() } else { 0 };
+        (self.tag(), self.addr(), v)
+    }
+    fn into_guard(self) -> Guard {
+        Guard::ItemR(self)
+    }
+}
+impl Item for AtomicRefMut<'static, dyn Obj> {
+    fn observe(&mut self, genuine: &dyn Fn(u32, usize) -> bool) -> (u32, usize, u32) {
+        let v = if genuine(self.tag(), self.addr()) { self.bump() } else { 0 };
+        (self.tag(), self.addr(), v)
+    }
+    fn into_guard(self) -> Guard {
+        Guard::ItemW(self)
+    }
+}
+
+/// The iterator consumed through a std adapter; returns (items handed out, end, count).
+/// Every call into the adapter is under `catch_unwind`.
+fn walk_iter<I: Iterator>(it: &mut I, how: &str, n: usize, m: usize) -> (Vec<I::Item>, String, usize) {
+    let mut out = Vec::new();
+    let pk = |p: Box<dyn std::any::Any + Send>| panic_kind(p).to_string();
+    match how {
+        "nth" => match catch_unwind(AssertUnwindSafe(|| it.nth(n))) {
+            Ok(Some(x)) => {
+                out.push(x);
+                (out, "done".into(), 0)
+            }
+            Ok(None) => (out, "none".into(), 0),
+            Err(p) => (out, pk(p), 0),
+        },
+        "last" => match catch_unwind(AssertUnwindSafe(|| it.by_ref().last())) {
+            Ok(Some(x)) => {
+                out.push(x);
+                (out, "none".into(), 0)
+            }
+            Ok(None) => (out, "none".into(), 0),
+            Err(p) => (out, pk(p), 0),
+        },
+        "count" => match catch_unwind(AssertUnwindSafe(|| it.by_ref().count())) {
+            Ok(c) => (out, "none".into(), c),
+            Err(p) => (out, pk(p), 0),
+        },
+        _ => {
+            let mut ad: Box<dyn Iterator<Item = I::Item> + '_> = match how {
+                "skip" => Box::new(it.by_ref().skip(n).take(m)),
+                "step" => Box::new(it.by_ref().step_by(n).take(m)),
+                "take" => Box::new(it.by_ref().take(m)),
+                _ => panic!("HARNESS: unknown adapter {}", how),
+            };
+            loop {
+                if out.len() == m {
+                    return (out, "done".into(), 0);
+                }
+                match catch_unwind(AssertUnwindSafe(|| ad.next())) {
+                    Ok(Some(x)) => out.push(x),
+                    Ok(None) => return (out, "none".into(), 0),
+                    Err(p) => return (out, pk(p), 0),
+                }
+            }
+        }
+    }
+}
+
 /// One world + one meta table + the live guards / iterators of one history.
 pub struct Machine {
     world: *mut World,
@@ -732,6 +804,43 @@ impl Machine {
             Err(p) => {
                 json!({"ev":"next","h":h,"k":k,"g":0,"out":panic_kind(p),"tag":0,"aout":0,"v":0,"b":self.probe()})
             }
+        }
+    }
+
+    /// The iterator `h` consumed through `nth(n)`, `by_ref().skip(n).take(m)`, `by_ref().step_by(n).take(m)`,
+    /// `by_ref().take(m)`, `by_ref().last()` or `by_ref().count()`; items handed out are kept alive as guards.
+    pub fn walk(&mut self, h: u64, how: &str, n: usize, m: usize) -> Value {
+        let raw = self.cell_raw.clone();
+        let genuine = move |tag: u32, addr: usize| raw.get(&(tag as usize, 0)) == Some(&addr);
+        let it = self.iters.get_mut(&h).expect("HARNESS: no such iterator");
+        fn fin<T: Item>(r: (Vec<T>, String, usize), genuine: &dyn Fn(u32, usize) -> bool) -> (Vec<((u32, usize, u32), Guard)>, String, usize) {
+            (r.0.into_iter().map(|mut x| (x.observe(genuine), x.into_guard())).collect(), r.1, r.2)
+        }
+        let (k, (got, end, cnt)) = match it {
+            Iter::R(i) => ("r", fin(walk_iter(i, how, n, m), &genuine)),
+            Iter::W(i) => ("w", fin(walk_iter(i, how, n, m), &genuine)),
+        };
+        let mut items = Vec::new();
+        for ((tag, a, v), guard) in got {
+            let g = self.free_guard().expect("HARNESS: out of guard ids");
+            self.guards.insert(g, guard);
+            let aout = self.aid(a);
+            items.push(json!({"tag":tag,"aout":aout,"v":v,"g":g}));
+        }
+        json!({"ev":"walk","h":h,"k":k,"how":how,"n":n,"m":m,"items":items,"end":end,"cnt":cnt,"b":self.probe()})
+    }
+
+    /// `Iterator::size_hint` (an absent upper bound is logged as hashi = false).
+    pub fn hint(&mut self, h: u64) -> Value {
+        let it = self.iters.get(&h).expect("HARNESS: no such iterator");
+        let r = catch_unwind(AssertUnwindSafe(|| match it {
+            Iter::R(i) => i.size_hint(),
+            Iter::W(i) => i.size_hint(),
+        }));
+        match r {
+            Ok((lo, hi)) => json!({"ev":"hint","h":h,"lo":lo.min(1_000_000),"hi":hi.unwrap_or(0).min(1_000_000),"hashi":hi.is_some()}),
+            // a panicking size_hint: reported as an impossible hint
+            Err(_) => json!({"ev":"hint","h":h,"lo":1_000_000,"hi":0,"hashi":true}),
         }
     }
 
